@@ -100,6 +100,22 @@ fn gauss(c: &Value, acc: &mut Acc) {
         acc.cmp(c, "DiffableGaussian2D<f64,NdArray<f64>> batch logp", v[at], norm, t32);
         acc.cmp(c, "DiffableGaussian2D<f64,NdArray<f64>> batch grad x", g[2 * at], gx, 3e-5 * gscale);
         acc.cmp(c, "DiffableGaussian2D<f64,NdArray<f64>> batch grad y", g[2 * at + 1], gy, 3e-5 * gscale);
+        // the same density translated by an offset that f32 cannot hold: in DOUBLE precision (f64 scalars on an f64 backend)
+        // the log-density and its gradient are translation-equivariant far beyond f32 accuracy
+        let off = [12345.7f64, -9876.5];
+        let d64s = DiffableGaussian2D::<f64>::new([sm[0] + off[0], sm[1] + off[1]], sc);
+        let rows_s: Vec<Vec<f64>> = rows.iter().map(|r| vec![r[0] + off[0], r[1] + off[1]]).collect();
+        let (v, g) = batch_grad::<B64, f64, _>(&d64s, &rows_s);
+        // (the translated arguments themselves carry an absolute error of 2e-12: budget 1e-6 relative to the gradient scale)
+        acc.cmp(c, "DiffableGaussian2D<f64,NdArray<f64>> translated batch logp", v[at], norm, 1e-6 * (norm.abs() + 1.0) + 1e-6 * gscale * s);
+        acc.cmp(c, "DiffableGaussian2D<f64,NdArray<f64>> translated batch grad x", g[2 * at], gx, 1e-6 * gscale);
+        acc.cmp(c, "DiffableGaussian2D<f64,NdArray<f64>> translated batch grad y", g[2 * at + 1], gy, 1e-6 * gscale);
+        if n == 1 {
+            let (v1, g1, _) = single_grad::<B64, f64, _>(&d64s, &[sx[0] + off[0], sx[1] + off[1]]);
+            acc.cmp(c, "DiffableGaussian2D<f64> translated single logp", v1, norm, 1e-6 * (norm.abs() + 1.0) + 1e-6 * gscale * s);
+            acc.cmp(c, "DiffableGaussian2D<f64> translated single grad x", g1[0], gx, 1e-6 * gscale);
+            acc.cmp(c, "DiffableGaussian2D<f64> translated single grad y", g1[1], gy, 1e-6 * gscale);
+        }
         let d32 = DiffableGaussian2D::<f32>::new([sm[0] as f32, sm[1] as f32], [[sc[0][0] as f32, sc[0][1] as f32], [sc[1][0] as f32, sc[1][1] as f32]]);
         let (v, g) = batch_grad::<B32, f32, _>(&d32, &rows);
         acc.cmp(c, "DiffableGaussian2D<f32,NdArray<f32>> batch logp", v[at], norm, t32);
